@@ -9,7 +9,7 @@ UNITS = [
     U("C14.dleq_verify", ["C14"], "harness/C14/dleq_verify.c", "h_dleq_verify", replace=HASH + ["secp256k1_ecmult", "secp256k1_gej_add_var", "secp256k1_ge_set_all_gej_var"],
       assumed=["secp256k1_ecmult", "secp256k1_gej_add_var", "secp256k1_ge_set_all_gej_var"],
       functions=["secp256k1_dleq_verify", "secp256k1_dleq_challenge", "secp256k1_dleq_hash_point", "secp256k1_nonce_function_dleq_sha256_tagged", "secp256k1_scalar_negate", "secp256k1_scalar_add"],
-      timeout=600, min_obl=3327, unwind=40, replay=False, note="wiring of the three multiplications, infinity gate, challenge hash stream, scalar comparison"),
+      timeout=600, min_obl=3327, unwind=40, replay=False, note="the three multiplications by operand value in any order, infinity gate, challenge hash at STREAM level (kept for cost, audit #31), scalar comparison; points of magnitude <= 4/3"),
     U("C14.verify", ["C14", "C07"], "harness/C14/verify.c", "h_verify",
       # gej_eq_x_var / gej_add_var / ge_set_gej are not called by the unchanged code; they are listed so that an edit which routes the final
       # comparison through another group primitive stays decidable (oracle) and then fails "accepts only through the adaptor equation"
